@@ -49,10 +49,11 @@ type call struct {
 
 // slowDialKey: context value (a time.Duration) that makes the harness's dial function take that long, whatever happens to the context
 type slowDialKey struct{}
+type failDialKey struct{}
 
 type closer struct {
 	AtRequest int    `json:"at_request"`
-	Op        string `json:"op"` // close | connect | close-connect | connect-cancelled (Connect whose context ends while the dial is still going on)
+	Op        string `json:"op"` // close | connect | close-connect | connect-cancelled (Connect whose context ends while the dial is still going on) | connect-fails (the dial fails, with a typed nil connection)
 }
 
 type concCase struct {
@@ -186,7 +187,7 @@ func runConc(c concCase) harness.Result {
 	}
 	var do func(context.Context, packet.Request) (packet.Response, error)
 	var closeFn func() error
-	var connectFn, connectCancelledFn func() error
+	var connectFn, connectCancelledFn, connectFailsFn func() error
 	if isSerial(c.Kind) {
 		mon.IdleRead = time.Duration(c.ReadBlockUs) * time.Microsecond
 		sp := serialPort{mon.NewConn()}
@@ -212,6 +213,12 @@ func runConc(c concCase) harness.Result {
 				// a dial function that does not return early when the context ends (a wrapper around net.DialTimeout or tls.Dial)
 				if d, ok := ctx.Value(slowDialKey{}).(time.Duration); ok {
 					time.Sleep(d)
+				}
+				if ctx.Value(failDialKey{}) != nil {
+					// the dial fails the way `return tls.Dial(...)` or a wrapper's `return w, err` does: the error comes with a nil
+					// pointer of a concrete type inside the net.Conn interface
+					var none *xport.ArrivalConn
+					return none, errors.New("dial: host unreachable")
 				}
 				return mon.NewConn(), nil
 			}}
@@ -242,6 +249,9 @@ func runConc(c concCase) harness.Result {
 		}
 		do, closeFn = cl.Do, cl.Close
 		connectFn = func() error { return cl.Connect(context.Background(), "arrival:1") }
+		connectFailsFn = func() error {
+			return cl.Connect(context.WithValue(context.Background(), failDialKey{}, true), "arrival:1")
+		}
 		connectCancelledFn = func() error {
 			ctx, cancel := context.WithTimeout(context.WithValue(context.Background(), slowDialKey{}, 3*time.Millisecond), 300*time.Microsecond)
 			defer cancel()
@@ -281,6 +291,13 @@ func runConc(c concCase) harness.Result {
 					_ = closeFn()
 				case "connect":
 					_ = connectFn()
+				case "connect-fails":
+					// the dial of this Connect call fails; the client goes on as it was
+					if connectFailsFn != nil {
+						if err := connectFailsFn(); err == nil {
+							panic("harness: Connect reported success although the dial function failed")
+						}
+					}
 				case "connect-cancelled":
 					// the context of the Connect call ends while the dial is still going on
 					if connectCancelledFn != nil {
@@ -546,7 +563,7 @@ func genConc(t *rapid.T) concCase {
 	}
 	if rapid.IntRange(0, 2).Draw(t, "closers") == 0 {
 		k := rapid.IntRange(1, 3).Draw(t, "nclosers")
-		ops := []string{"close", "connect", "close-connect", "connect-cancelled"}
+		ops := []string{"close", "connect", "close-connect", "connect-cancelled", "connect-fails", "connect-fails"}
 		if isSerial(c.Kind) {
 			ops = []string{"close"} // the serial client has no Connect
 		}
